@@ -182,7 +182,7 @@ def stage(prop, spec, scratch=None):
     )
     for hname in spec.get("inject", {}).get("src/lib.rs", []):
         t += (
-            '#[cfg(any(kani, verif_replay))]\n#[path = "%s/harness/%s.rs"]\nmod verif_harness_%s;\n'
+            '#[cfg(any(kani, verif_replay))]\n#[path = "%s/harness/%s.rs"]\npub(crate) mod verif_harness_%s;\n'
             % (VERIF, hname, hname)
         )
     with open(lib, "w") as f:
@@ -198,7 +198,7 @@ def stage(prop, spec, scratch=None):
         for hname in hnames:
             t += (
                 "\n// ---- injected by /verif/tools/vlib.py (scratch copy only) ----\n"
-                '#[cfg(any(kani, verif_replay))]\n#[path = "%s/harness/%s.rs"]\nmod verif_harness_%s;\n'
+                '#[cfg(any(kani, verif_replay))]\n#[path = "%s/harness/%s.rs"]\npub(crate) mod verif_harness_%s;\n'
                 % (VERIF, hname, hname)
             )
         with open(p, "w") as f:
@@ -291,8 +291,11 @@ def run_kani(scratch, harnesses, features=None, jobs=None, harness_timeout=600,
     """Run `cargo kani` on the staged copy for the given fully-qualified harness names.
     Returns (returncode, output_text, memwatch)."""
     jobs = jobs or min(len(harnesses), max(1, NCPU - 2))
+    # --no-assertion-reach-checks: Kani's per-assertion reachability covers cost one SAT call
+    # each (thousands per harness, measured 45% of the time); vacuity is guarded by the
+    # explicit cover! witnesses every harness carries instead.
     cmd = ["cargo", "kani", "-Z", "stubbing", "-Z", "unstable-options",
-           "--target-dir", kani_target_dir(target_tag),
+           "--no-assertion-reach-checks", "--target-dir", kani_target_dir(target_tag),
            "--harness-timeout", f"{int(harness_timeout)}s", "--exact"]
     if features:
         cmd += ["--features", ",".join(features)]
@@ -304,6 +307,10 @@ def run_kani(scratch, harnesses, features=None, jobs=None, harness_timeout=600,
         cmd += ["--harness", h]
     if extra:
         cmd += extra
+    # CBMC models memcmp as a byte loop; GUID / GuidPrefix comparisons need up to 16
+    # iterations.  Naming that one loop here lets the harnesses keep a small global unwind
+    # bound (every symbolic-trip-count loop is unrolled up to the global bound).  Must be last.
+    cmd += ["--cbmc-args", "--unwindset", "memcmp.0:18"]
     env = dict(ENV_BASE)
     p = subprocess.Popen(cmd, cwd=scratch, env=env, stdout=subprocess.PIPE,
                          stderr=subprocess.STDOUT, text=True, start_new_session=True)
